@@ -1017,6 +1017,12 @@ func runC08(c *Cfg) {
 				pcs = append(pcs, &PoolCase{Family: "pool-limit-after-wait-on-a-fresh-pool", Workers: w, Tasks: 3*w + 1, Submitters: 1, Rounds: 2, Gated: true, Policy: []string{"first", "last"}[ew%2], EarlyWait: ew})
 			}
 		}
+		if w > 1 {
+			// hundreds of quick tasks first (workers going to sleep and being woken over and over), then tasks that all block:
+			// every one of the w workers still takes one
+			pcs = append(pcs, &PoolCase{Family: "pool-limit-after-churn", Workers: w, Tasks: 2 * w, Submitters: 1, Rounds: 4, Gated: true, Policy: "last", PreTasks: 300})
+			pcs = append(pcs, &PoolCase{Family: "pool-limit-after-churn", Workers: 4 * w, Tasks: 4 * w, Submitters: 2, Rounds: 3, Gated: true, Policy: "first", PreTasks: 500})
+		}
 		pcs = append(pcs, &PoolCase{Family: "pool-limit-dwell", Workers: w, Tasks: 3*effWorkers(w) + 4, Submitters: 1 + (w+1)%2, Rounds: 1, Gated: true, Policy: "first", DwellMs: 350})
 	}
 	poolLoop(c, len(pcs), func(i int) *PoolCase { return pcs[i] }, func(i int, cs *PoolCase, o *PoolObs) {
